@@ -112,6 +112,36 @@ func fatalFacts(s *src, f *facts) {
 						return false
 					}
 				}
+				// (a branch that does not close but jumps — `if … { break }` in a switch clause — leaves the list too)
+				if !t && len(allShallow[*ast.BranchStmt](v.Body, nil)) > 0 {
+					return false
+				}
+				if v.Else != nil && !e && len(allShallow[*ast.BranchStmt](v.Else, nil))+len(allShallow[*ast.ReturnStmt](v.Else, nil)) > 0 {
+					return false
+				}
+			case *ast.BranchStmt:
+				// break / fallthrough / goto: this list is left (or continued elsewhere) before it has closed
+				return false
+			case *ast.SwitchStmt:
+				// `switch err { case nil: …Close(…) default: …Close(…) }` (tagged or tagless): one clause always runs
+				// when there is a default, so the switch closes if EVERY clause does (a clause that ends in
+				// `fallthrough` or breaks out early does not count: see BranchStmt above)
+				if v.Body == nil {
+					continue
+				}
+				hasDefault, every := false, len(v.Body.List) > 0
+				for _, cl := range v.Body.List {
+					cc, ok := cl.(*ast.CaseClause)
+					if !ok {
+						every = false
+						continue
+					}
+					hasDefault = hasDefault || cc.List == nil
+					every = every && alwaysCloses(cc.Body)
+				}
+				if hasDefault && every {
+					return true
+				}
 			}
 		}
 		return false
